@@ -568,6 +568,10 @@ class Interp:
                 vs = self.adts.variants(v.ty)
                 return Int(vs[v.variant][2], 64, True)
             except KeyError:
+                t = v.ty
+                if '::' in t and t.rsplit('::', 1)[0].split('::')[-1][:1].isupper() and t.rsplit('::', 1)[1][:1].isupper():
+                    # `Enum::Variant` of an enum whose layout is unknown: never guess its discriminant
+                    raise Inconclusive('discriminant of an enum without a known layout: ' + t)
                 return Int(v.variant, 64, True)
         if isinstance(v, Extern):
             return Int(0, 64, True)
